@@ -252,10 +252,15 @@ func (hni *HyperNodesInfo) UpdateHyperNode(hn *topologyv1alpha1.HyperNode) error
 	name := hn.Name
 	old, exists := hni.hyperNodes[name]
 
+	// An entry that addChild created for a member it had not seen yet carries an empty
+	// spec and is in no tier set: the first real object for that name is a new HyperNode,
+	// not an update of the empty spec (which a tier-0 object without members would equal).
+	known := exists && old.HyperNode != nil && hni.hyperNodesSetByTier[old.tier].Has(name)
+
 	specChanged := true
 	membersChanged := true
 	tierChanged := true
-	if exists && old.HyperNode != nil {
+	if known {
 		oldSpec := old.HyperNode.Spec
 		tierChanged = oldSpec.Tier != hn.Spec.Tier
 		membersChanged = !equality.Semantic.DeepEqual(oldSpec.Members, hn.Spec.Members)
@@ -270,7 +275,7 @@ func (hni *HyperNodesInfo) UpdateHyperNode(hn *topologyv1alpha1.HyperNode) error
 	// deleted, UpdateHyperNode is called with the same unchanged spec to trigger a
 	// re-evaluation of the selector. In that case we must NOT skip the rebuild even
 	// though specChanged == false.
-	if !specChanged && exists && !hyperNodeHasRegexOrLabelMember(hn) {
+	if !specChanged && known && !hyperNodeHasRegexOrLabelMember(hn) {
 		old.HyperNode = hn
 		old.tier = hn.Spec.Tier
 		old.tierName = hn.Spec.TierName
@@ -286,7 +291,7 @@ func (hni *HyperNodesInfo) UpdateHyperNode(hn *topologyv1alpha1.HyperNode) error
 		freedMembers = hni.updateParent(hn)
 	}
 
-	if !exists || tierChanged {
+	if !known || tierChanged {
 		hni.updateHyperNodesSetByTier(hn)
 	}
 
